@@ -392,6 +392,17 @@ class Tup(tuple):
 
 
 @dataclass(frozen=True)
+class SBV:
+    """a two's-complement signed integer of `n` bits read by a signed struct code; transparent for re-packing with a
+    signed code of the same width, comparable only against its own full range"""
+    bv: Any
+    n: int
+
+    def __repr__(self) -> str:
+        return f"signed{self.n}({self.bv!r})"
+
+
+@dataclass(frozen=True)
 class StrV:
     """a text field, or the image of one under a named invertible transform"""
     name: str
@@ -660,7 +671,7 @@ class SerEval:
                 out.append(("s", int(cnt) if cnt else 1))
             else:
                 for _ in range(int(cnt) if cnt else 1):
-                    out.append((code, {"B": 1, "H": 2, "I": 4, "L": 4, "Q": 8, "x": 1, "b": 1, "h": 2, "i": 4, "?": 1}[code]))
+                    out.append((code, {"B": 1, "H": 2, "I": 4, "L": 4, "Q": 8, "x": 1, "b": 1, "h": 2, "i": 4, "l": 4, "q": 8, "?": 1, "c": 1}[code]))
         return out
 
     def fmt_of(self, node: ast.AST, env: dict, run: Run) -> list[tuple[str, Any]]:
@@ -705,7 +716,7 @@ class SerEval:
             elif code == "x":
                 pass
             else:
-                if code not in "BHILQ?":
+                if code not in "BHILQ?bhilq":
                     raise Unsupported(f"struct code {code}")
                 o = run.cons.norm(off)
                 if not o.is_const():
@@ -714,7 +725,7 @@ class SerEval:
                 bits: tuple = ()
                 for oc in reversed(octs):
                     bits = bits + oc.take(8).bits + (0,) * (8 - len(oc.take(8).bits))
-                out.append(BV(bits))
+                out.append(SBV(BV(bits), 8 * n) if code in "bhilq" else BV(bits))
             off = off + n
         return Tup(out)
 
@@ -769,6 +780,17 @@ class SerEval:
                     run.notes.append(f"LOSSY struct 's' field of {n_l} octets from a value of {ln} octets: padded or truncated silently")
                     parts.append(Blob(("lossy",), Lin(0), n_l))
             else:
+                if code in "bhilq":
+                    if isinstance(v, SBV) and v.n == 8 * n:
+                        bv = v.bv
+                    elif isinstance(v, SBV):
+                        raise Unsupported("signed value repacked at another width")
+                    else:
+                        # a non-negative value below 2**(8n-1) packs like its unsigned form
+                        bv = self.fit(v, 8 * n - 1, run, f"struct '{code}' (non-negative part)")
+                    for i in reversed(range(n)):
+                        parts.append(bv.shr(8 * i).take(8))
+                    continue
                 if code not in "BHILQ?":
                     raise Unsupported(f"struct code {code}")
                 bv = self.fit(v, 8 * n, run, f"struct '{code}'")
@@ -836,6 +858,7 @@ class SerEval:
                 if run.choose(2, f"{name} member?") == 1:
                     raise AbstractRaise("ValueError", f"not a valid {name}")
                 run.notes.append(f"assume {bv!r} is a member of {name}")
+                run.__dict__.setdefault("known_members", set()).add((ci.ref, repr(bv)))
             return EnumV(ci.ref, bv)
         if name in ("IndividualAddress", "GroupAddress"):
             v = args[0] if args else kwargs.get("address")
@@ -852,6 +875,17 @@ class SerEval:
             return Obj(name, {"value": v}, ci)
         if name == "DPTArray":
             v = args[0] if args else kwargs["value"]
+            if isinstance(v, (BV, Lin, EnumV)) or (isinstance(v, int) and not isinstance(v, bool)):
+                v = Tup([v])
+            if isinstance(v, (tuple, list)):
+                # DPTArray stores the integers unchecked: an element wider than an octet stays in the payload
+                octs = []
+                for x in v:
+                    bv = self.to_bv(x, run)
+                    if bv.width() > 8:
+                        run.notes.append(f"UNCHECKED DPTArray element {bv!r} may exceed an octet")
+                    octs.append(bv.take(8) if bv.width() <= 8 else bv)
+                return Obj(name, {"value": Bytes(tuple(octs))}, ci)
             if not isinstance(v, Bytes):
                 raise Unsupported("DPTArray from a non-bytes value")
             return Obj(name, {"value": v}, ci)
@@ -909,6 +943,22 @@ class SerEval:
         if isinstance(v, BV):
             if v.is_const():
                 return v.value() != 0
+            bitvals = run.__dict__.setdefault("bitvals", {})
+            nz_ = [b for b in v.bits if b != 0]
+            if v.tail is None and len(nz_) == 1 and isinstance(nz_[0], Src):
+                # one symbolic bit: decided once per path
+                if nz_[0] in bitvals:
+                    return bitvals[nz_[0]]
+                c = run.choose(2, f"bit {nz_[0]!r}")
+                bitvals[nz_[0]] = (c == 0)
+                run.notes.append(f"branch on {nz_[0]!r} = {int(c == 0)}")
+                if c == 1:
+                    self.assume_zero(v, run)
+                return c == 0
+            if v.tail is None and all(isinstance(b, Src) and bitvals.get(b) is False for b in nz_):
+                return False
+            if v.tail is None and any(isinstance(b, Src) and bitvals.get(b) is True for b in nz_):
+                return True
             c = run.choose(2, f"truth of {v!r} {label}")
             run.notes.append(f"branch on {v!r} {'!= 0' if c == 0 else '== 0'}")
             if c == 1:
@@ -919,6 +969,14 @@ class SerEval:
         if isinstance(v, (tuple, list)):
             return len(v) > 0
         raise Unsupported(f"truth of {v!r}")
+
+    def resolve_bits(self, v: Any, run: Run) -> Any:
+        """substitute the bits this path has decided (single-bit branches, values assumed zero)"""
+        if not isinstance(v, BV):
+            return v
+        bitvals = run.__dict__.get("bitvals", {})
+        zero = run.__dict__.get("zero_bits", set())
+        return BV(tuple((1 if bitvals.get(b) is True else 0 if (bitvals.get(b) is False or b in zero) else b) if isinstance(b, Src) else b for b in v.bits), v.tail)
 
     def assume_zero(self, v: BV, run: Run) -> None:
         run.__dict__.setdefault("zero_bits", set()).update(b for b in v.bits if isinstance(b, Src))
@@ -972,8 +1030,21 @@ class SerEval:
                 self.block(st.orelse, env, run)
             self.block(st.finalbody, env, run)
             return
+        if isinstance(st, ast.For) and not st.orelse:
+            it = self.expr(st.iter, env, run)
+            if isinstance(it, (tuple, list)) and not (it and it[0] == "#pieces"):
+                for x in it:
+                    self.assign(st.target, x, env, run)
+                    try:
+                        self.block(st.body, env, run)
+                    except _Continue:
+                        continue
+                return
+            raise Unsupported(f"for loop over {type(it).__name__} at line {st.lineno}")
         if isinstance(st, ast.Pass):
             return
+        if isinstance(st, ast.Continue):
+            raise _Continue()
         if isinstance(st, ast.FunctionDef):
             env[st.name] = ("#closure", st, env)
             return
@@ -1081,6 +1152,8 @@ class SerEval:
                 raise Unsupported("cannot express divisibility")
             memo[(la.key(), k)] = self._nonzero_sym(run, f"rem({la}%{k})", k - 1)
             return memo[(la.key(), k)]
+        if isinstance(op, ast.Pow) and isinstance(a, int) and isinstance(b, int) and not isinstance(a, bool) and 0 <= b < 256:
+            return a ** b
         if isinstance(op, ast.FloorDiv):
             la, lb = run.cons.norm(self.to_lin(a, run)), self.to_lin(b, run)
             if lb.is_const() and lb.c > 0 and all(v % lb.c == 0 for v in la.t.values()) and la.c % lb.c == 0:
@@ -1097,6 +1170,8 @@ class SerEval:
             if a is None or b is None:
                 r = (a is None) == (b is None)
                 return r if isinstance(op, ast.Is) else not r
+            if isinstance(a, ClassInfo) and isinstance(b, ClassInfo):
+                return (a.ref == b.ref) if isinstance(op, ast.Is) else (a.ref != b.ref)
             if isinstance(a, (EnumV, EnumMember)) and isinstance(b, (EnumV, EnumMember)):
                 r = self.compare(ast.Eq(), a, b, run)  # enum members are singletons
                 return r if isinstance(op, ast.Is) else not r
@@ -1111,6 +1186,16 @@ class SerEval:
                 return hit if isinstance(op, ast.In) else not hit
             raise Unsupported("membership in a non-tuple")
         sym = {ast.Eq: "==", ast.NotEq: "!=", ast.Lt: "<", ast.LtE: "<=", ast.Gt: ">", ast.GtE: ">="}[type(op)]
+        for x_, y_, s_ in ((a, b, sym), (b, a, {"<": ">", ">": "<", "<=": ">=", ">=": "<="}.get(sym, sym))):
+            if isinstance(x_, SBV):
+                yv_ = y_ if isinstance(y_, int) and not isinstance(y_, bool) else (y_.value() if isinstance(y_, BV) and y_.is_const() else None)
+                lo_, hi_ = -(1 << (x_.n - 1)), (1 << (x_.n - 1)) - 1
+                if yv_ is not None:
+                    if (s_ == "<=" and yv_ >= hi_) or (s_ == ">=" and yv_ <= lo_) or (s_ == "<" and yv_ > hi_) or (s_ == ">" and yv_ < lo_):
+                        return True
+                    if (s_ == ">" and yv_ >= hi_) or (s_ == "<" and yv_ <= lo_):
+                        return False
+                raise Unsupported("comparison of a signed wire value inside its range")
         if a is None or b is None:
             if sym in ("==", "!="):
                 return ((a is None) == (b is None)) == (sym == "==")
@@ -1230,6 +1315,11 @@ class SerEval:
                 v = self.repo.const(base[1], e.attr)
                 if v is not NOFOLD:
                     return self.lift(v)
+                hit_ = self.repo.class_attr_expr(base[1], e.attr)
+                if hit_ is not None:
+                    t_ = self.repo.resolve_expr(hit_[1].module, hit_[0])
+                    if isinstance(t_, ClassInfo):
+                        return t_
                 m = self.repo.lookup_method(base[1], e.attr)
                 if m is not None:
                     return ("#bound", m, None, base[1])
@@ -1307,12 +1397,44 @@ class SerEval:
                             bits.append(p if p == q else (tv.bits[0] if (p, q) == (1, 0) else TOP))
                         return BV(tuple(bits))
             return self.expr(e.body, env, run) if self.truth(tv, run, ast.unparse(e.test)[:40]) else self.expr(e.orelse, env, run)
-        if isinstance(e, ast.Tuple):
-            return Tup(self.expr(x, env, run) for x in e.elts)
-        if isinstance(e, ast.List):
-            return [self.expr(x, env, run) for x in e.elts]
+        if isinstance(e, ast.Dict):
+            d: dict = {}
+            for k_, v_ in zip(e.keys, e.values):
+                if k_ is None:
+                    inner_ = self.expr(v_, env, run)
+                    if not isinstance(inner_, dict):
+                        raise Unsupported("** of a non-dict")
+                    d.update(inner_)
+                else:
+                    kk = self.expr(k_, env, run)
+                    if not isinstance(kk, str):
+                        raise Unsupported("dict with non-text keys")
+                    d[kk] = self.expr(v_, env, run)
+            return d
+        if isinstance(e, (ast.Tuple, ast.List)):
+            items: list = []
+            for x in e.elts:
+                if isinstance(x, ast.Starred):
+                    inner_ = self.expr(x.value, env, run)
+                    if isinstance(inner_, Bytes):
+                        n_ = self.length(inner_, run)
+                        if not n_.is_const():
+                            raise Unsupported("unpacking a byte string of symbolic length")
+                        items += [self.index(inner_, i, run) for i in range(n_.c)]
+                    elif isinstance(inner_, (tuple, list)):
+                        items += list(inner_)
+                    else:
+                        raise Unsupported(f"unpacking {inner_!r}")
+                else:
+                    items.append(self.expr(x, env, run))
+            return Tup(items) if isinstance(e, ast.Tuple) else items
         if isinstance(e, ast.Subscript):
             base = self.expr(e.value, env, run)
+            if isinstance(base, dict):
+                kk = self.expr(e.slice, env, run)
+                if kk not in base:
+                    raise AbstractRaise("KeyError", f"key {kk!r}")
+                return base[kk]
             if isinstance(base, (tuple, list)):
                 i = self.expr(e.slice, env, run)
                 if isinstance(e.slice, ast.Slice):
@@ -1399,7 +1521,22 @@ class SerEval:
             return self.pack(fmt, vals, run)
         if fn == "isinstance":
             v = self.expr(c.args[0], env, run)
-            names = [ast.unparse(x).split(".")[-1] for x in (c.args[1].elts if isinstance(c.args[1], ast.Tuple) else [c.args[1]])]
+            names = []
+            for x in (c.args[1].elts if isinstance(c.args[1], ast.Tuple) else [c.args[1]]):
+                nm = ast.unparse(x).split(".")[-1]
+                try:
+                    tv_ = self.expr(x, env, run) if not (isinstance(x, ast.Name) and x.id in ("int", "float", "str", "bytes", "bool", "tuple", "list", "dict", "bytearray")) else None
+                except Unsupported:
+                    tv_ = None
+                if isinstance(tv_, tuple) and len(tv_) == 2 and tv_[0] == "#class":
+                    tv_ = tv_[1]
+                names.append(tv_.name if isinstance(tv_, ClassInfo) else nm)
+            if isinstance(v, EnumV):
+                ecls = v.enum.split(":")[-1]
+                ci_ = next((k for k in self.by_name.get(ecls, [])), None)
+                return ecls in names or (ci_ is not None and any(k.name in names for k in self.repo.mro(ci_))) or ("int" in names and ci_ is not None and "IntEnum" in self.repo.ext_base_names(ci_))
+            if isinstance(v, (StrV, str)):
+                return "str" in names
             if isinstance(v, Obj):
                 return v.cls in names or any(k.name in names for k in (self.repo.mro(v.ci) if v.ci else []))
             if isinstance(v, (BV, Lin)) or (isinstance(v, int) and not isinstance(v, bool)):
@@ -1444,6 +1581,15 @@ class SerEval:
             return BV(bits)
         if fn in ("cast",):
             return self.expr(c.args[1], env, run)
+        if fn == "int" and len(c.args) == 1:
+            v = self.expr(c.args[0], env, run)
+            if isinstance(v, SBV):
+                return v
+            if isinstance(v, (BV, Lin, int, EnumV)) and not isinstance(v, bool):
+                return v.value if isinstance(v, EnumV) else v
+            if isinstance(v, bool):
+                return int(v)
+            raise Unsupported(f"int({v!r})")
         if fn in INVERSE_PAIRS and len(c.args) == 1:
             v = self.expr(c.args[0], env, run)
             if isinstance(v, str):
@@ -1470,6 +1616,12 @@ class SerEval:
         f = c.func
         args = [self.expr(a, env, run) for a in c.args]
         kwargs = {k.arg: self.expr(k.value, env, run) for k in c.keywords if k.arg}
+        for k in c.keywords:
+            if k.arg is None:
+                extra_ = self.expr(k.value, env, run)
+                if not isinstance(extra_, dict):
+                    raise Unsupported("** of a non-dict")
+                kwargs.update(extra_)
         if isinstance(f, ast.Attribute) and f.attr == "join":
             sep = self.expr(f.value, env, run)
             if isinstance(sep, Bytes) and not sep.parts and args and isinstance(args[0], tuple) and args[0][0] == "#pieces":
@@ -1571,6 +1723,10 @@ class SerEval:
             else:
                 raise Unsupported("encode_cmd_and_payload changed shape")
         raise Unsupported("encode_cmd_and_payload without return")
+
+
+class _Continue(Exception):
+    pass
 
 
 class _Return(Exception):
